@@ -60,6 +60,8 @@ def build(bib, names, BlockProbe, LibProbe, ct):
             out.append(mw.MonthIntMiddleware())
         elif n == "RE":
             out.append(mw.RemoveEnclosingMiddleware())
+        elif n == "RS":
+            out.append(mw.ResolveStringReferencesMiddleware())
         elif n == "AE":
             out.append(mw.AddEnclosingMiddleware(reuse_previous_enclosing=False, enclose_integers=True, default_enclosing="{",
                                                  allow_inplace_modification=False))
@@ -76,6 +78,36 @@ def want_entry(w):
     if not w["live"]:
         return {"live": False}
     return {"layers": w["layers"], "log": [list(x) for x in w["log"]], "mint": w["mint"]}
+
+
+DOC3 = DOC + "\n@article{k, title = {y}, month = 4}\n% c\r\n@article{pre,\r\n title = {{z}}, month = 5}\n@string{s = {v}}\n@string{s = \"w\"}\n@article{pre, title = {q}, month = 6}\n"
+
+
+def shape(lib, M):
+    """blocks of a library as comparable data: class, key, for duplicate wrappers the position of the block they refer to."""
+    out = []
+    for b in lib.blocks:
+        d = {"cls": type(b).__name__, "key": getattr(b, "key", None), "raw": b.raw}
+        if isinstance(b, M.DuplicateBlockKeyBlock):
+            d["prev"] = next((i for i, x in enumerate(lib.blocks) if x is b.previous_block), -1)
+            b = b.ignore_error_block
+        if isinstance(b, M.Entry):
+            d["fields"] = [[f.key, f.value] for f in b.fields]
+            d["log"] = b.parser_metadata.get("verif_log", [])
+        elif isinstance(b, M.String):
+            d["value"] = b.value
+        out.append(d)
+    return out
+
+
+def by_hand(bib, stack_names, BlockProbe, LibProbe, with_library):
+    """'parse_string equals splitting followed by the given stack': the right-hand side, literally."""
+    M = bib.model
+    lib0 = bib.Library([M.Entry("article", "pre", [M.Field("title", "{{x}}"), M.Field("month", "3")], raw="r0")]) if with_library else None
+    lib = bib.splitter.Splitter(DOC3).split(library=lib0) if with_library else bib.splitter.Splitter(DOC3).split()
+    for m in build(bib, stack_names, BlockProbe, LibProbe, "list") or []:
+        lib = m.transform(lib)
+    return shape(lib, M)
 
 
 def observe_entry(e):
@@ -123,10 +155,19 @@ def run_cfg(bib, c, BlockProbe, LibProbe):
               "c1": M.ExplicitComment("c1"), "e2": M.Entry("book", "e2", [])}
     fresh = {"x1": lambda: M.ExplicitComment("x1"), "x2": lambda: M.Preamble("x2")}
     names = {}
+    keep = []      # (keeps every fresh block alive so that ids stay unique)
+    buf = []
 
     def result(kind, b):
         x1, x2 = fresh["x1"](), fresh["x2"]()
         names[id(x1)], names[id(x2)] = "x1", "x2"
+        keep.extend([x1, x2])
+        if kind == "reused_list":
+            # the middleware answers with ONE list object that it refills on every call: each answer has to be read
+            # before the next block is transformed
+            buf.clear()
+            buf.append(x1)
+            return buf
         return {"none": None, "empty_list": [], "empty_tuple": (), "same": b, "other": x1, "list2": [x1, x2],
                 "tuple2": (x1, x2), "list3": [x1, b, x2], "generator": (y for y in [x1]), "int": 7, "str": "abc",
                 "list_with_nonblock": [x1, "abc"], "dict_of_str": {"a": x1}, "object": object()}[kind]
@@ -154,7 +195,10 @@ def run_cfg(bib, c, BlockProbe, LibProbe):
         return {"err": True, "bs": []}
     except Exception as ex:  # noqa
         return {"err": "other", "exc": f"{type(ex).__name__}: {ex}"}
-    return {"err": False, "bs": [names.get(id(b), "?" + type(b).__name__) for b in out.blocks]}
+    bs = [names.get(id(b), "?" + type(b).__name__) for b in out.blocks]
+    if len({id(b) for b in out.blocks}) != len(out.blocks):
+        bs.append("<the same object at two positions>")
+    return {"err": False, "bs": bs}
 
 
 def files(chk, bib):
@@ -273,6 +317,21 @@ def run(chk: core.Check):
                     winto = {"keys": ["pre", "k"], "pre": wp, "e": w, "blocks": 2} if w.get("live", True) else {"keys": [], "blocks": 0}
                     if got["into"] != winto:
                         ok, clause, want = False, "parse_into_library", {"e": w, "into": winto}
+                if ok:
+                    # the statement read literally, on a document with duplicates, CRLF lines and strings
+                    for with_library in (False, True):
+                        M = bib.model
+                        lib0 = bib.Library([M.Entry("article", "pre", [M.Field("title", "{{x}}"), M.Field("month", "3")], raw="r0")]) if with_library else None
+                        try:
+                            lhs = shape(bib.parse_string(DOC3, library=lib0, parse_stack=build(bib, c["ps"], BlockProbe, LibProbe, c["ct"]),
+                                                         append_middleware=build(bib, c["app"], BlockProbe, LibProbe, c["ct"])), M)
+                        except Exception as ex:  # noqa
+                            lhs = f"{type(ex).__name__}: {ex}"
+                        rhs = by_hand(bib, list(e["stack"]), BlockProbe, LibProbe, with_library)
+                        if lhs != rhs:
+                            ok, clause = False, "parse_equals_split_then_stack"
+                            got, want = {"err": False, "parse_string": lhs, "library_given": with_library}, {"split_then_stack": rhs}
+                            break
             elif c["side"] == "write":
                 # expected text: the effective stack of the specification applied by hand, then the real writer
                 # (so that only the ORDER and CONTENT of the stack are judged here, not the writer's layout: C06)
